@@ -531,7 +531,12 @@ func (c *InterfaceConfig) Initialize(ctx context.Context) error {
 	if len(c.Configs) == 0 {
 		c.Configs = []*Config{c.Config}
 	} else {
-		for _, subCfg := range c.Configs {
+		for idx, subCfg := range c.Configs {
+			if subCfg == nil {
+				// An empty list entry (`configs: [~]`) inherits everything.
+				subCfg = &Config{}
+				c.Configs[idx] = subCfg
+			}
 			mergeConfigs(ctx, *c.Config, subCfg)
 		}
 	}
